@@ -176,13 +176,26 @@ pub fn touch() {
 /// hung (threads cannot be killed): the tags of the stalled cases go to `file`, the process exits with
 /// status 3, and the supervisor restarts the worker without those cases. A hang is never a violation; the
 /// restarted run reports the violations other cases show, and otherwise the check ends inconclusive.
-pub fn start_stall_monitor(limit_s: u64, file: std::path::PathBuf) {
+pub fn start_stall_monitor(limit_s: u64, deadline_s: u64, file: std::path::PathBuf) {
     now_ms();
     std::thread::Builder::new()
         .name("stall-monitor".into())
         .spawn(move || loop {
             std::thread::sleep(std::time::Duration::from_millis(500));
             let now = now_ms();
+            // shortly before the supervisor's watchdog would kill the worker: violations already confirmed stand
+            if deadline_s > 0 && now > deadline_s * 1000 {
+                if let Ok(c) = CONFIRMED.try_lock() {
+                    if !c.is_empty() {
+                        for (prop, replay, driver, msg) in c.iter() {
+                            println!("VIOLATION property={prop} replay={replay}");
+                            println!("  driver={driver} message={msg}");
+                        }
+                        diag(&format!("[deadline] the run is about to exceed its time limit; reporting the {} violation(s) confirmed so far", c.len()));
+                        std::process::exit(1);
+                    }
+                }
+            }
             let mut stalled = Vec::new();
             for i in 0..SLOTS {
                 let tag = INFLIGHT[i].load(Ordering::Relaxed);
